@@ -112,7 +112,7 @@ def r13c(P, R):
                     "of the same file with other names contributes nothing (diamond: main imports F from y and A from x; y imports B from x => A is lost)",
                     loc=rec.loc())
     # both target kinds handled
-    ms = matches_on(rec, "ImportTargets")
+    ms = [m for m in matches_on(rec, "ImportTargets") if not m.get("x")]
     R.floor("R13-c", "matches over ImportTargets", len(ms), 1)
     for m in ms:
         v, catch = arm_variants(m)
@@ -136,6 +136,42 @@ def r13c(P, R):
                 R.check("R13-c", "specific-by-name", ok, "specific imports are selected by fragment name", "specific imports are not selected by name", loc=rec.loc())
                 errs = [x for x in subnodes(arm["body"]) if x.get("k") == "Struct" and "rest" not in x and norm(x.get("variant", "")).endswith("FragmentNotFound")]
                 R.check("R13-c", "missing-name-error", len(errs) == 1, "a missing fragment name is reported", "no FragmentNotFound diagnostic", loc=rec.loc())
+    # FragmentNotFound is decided against the imported file's own definitions, not against what has been collected so far
+    nf = [(i, x) for i, (x, _) in enumerate(rec.nodes()) if x.get("k") == "Struct" and "rest" not in x and norm(x.get("variant", "")).endswith("FragmentNotFound")]
+    defs_param = pv.params.get([p for p, t in zip(rec.params, rec.sig_inputs) if "Vec<nitrogql_ast::operation::ExecutableDefinition>" in t][0].get("local"))
+    for i, x in nf:
+        guards = [c for c in enclosing_contexts(rec, i) if c[0] in ("if-then", "arm", "let-else")]
+        g = guards[0] if guards else None
+        ge = None if g is None else (g[1]["cond"] if g[0] == "if-then" else (g[1]["scrut"] if g[0] == "arm" else g[1].get("init")))
+        a = pv.atoms(ge) if ge is not None else frozenset()
+        ok = has_call(a, "OperationResolver::resolve") and has_field(a, "nitrogql_ast::operation::OperationDocument", "definitions") and ("param", defs_param) not in a
+        R.check("R13-c", "missing-name-source", ok, "a requested name is missing iff the imported file does not define it",
+                "FragmentNotFound is decided by looking into %s: a name the target file does not define is accepted whenever a same-named "
+                "fragment was already collected from elsewhere (and the verdict depends on the order of the import lines)"
+                % ("the accumulated `definitions`" if ("param", defs_param) in a else "something other than the imported document"), loc=rec.loc())
+    # each definition is appended at most once: appends happen only on the first visit of a file (the skip test is exactly
+    # `visited.contains(path)`), unless they are individually guarded by a membership test
+    for i, (n, _) in enumerate(rec.nodes()):
+        if n.get("k") == "If" and any((call_name(x) or "") == HS + "::contains" for x in subnodes(n["cond"])):
+            cond = n["cond"]
+            while cond.get("k") in ("DropTemps", "Paren"):
+                cond = cond["e"]
+            exact = cond.get("k") == "MethodCall" and (call_name(cond) or "") == HS + "::contains"
+            if not exact:
+                adds = [(j, x) for j, (x, _) in enumerate(rec.nodes()) if x.get("k") == "MethodCall" and x["method"] in ("extend", "push")
+                        and "ExecutableDefinition" in norm(x.get("recv_ty", ""))]
+                unguarded = []
+                for j, x in adds:
+                    conds = [c[1]["cond"] for c in enclosing_contexts(rec, j) if c[0] in ("if-then", "if-else")]
+                    conds += [y["args"][0] for y in subnodes(x) if y.get("k") == "MethodCall" and y["method"] == "filter"]
+                    if not any(("param", defs_param) in pv.atoms(c) for c in conds):
+                        unguarded.append(x["method"])
+                R.check("R13-c", "append-once", not unguarded, "appends are individually de-duplicated",
+                        "the visited-skip is weakened to `%s`-with-extra-conditions, so the appends (%s) also run for a file that was already "
+                        "visited, with no per-definition membership test: its fragments are appended a second time"
+                        % ("contains", unguarded), loc=rec.loc())
+            else:
+                R.holds("R13-c", "append-once", "appends run only on the first visit of a file (skip test is exactly visited.contains)")
     # error for a dangling file
     errs = [(i, x) for i, (x, _) in enumerate(rec.nodes()) if x.get("k") == "Struct" and "rest" not in x and norm(x.get("variant", "")).endswith("FileNotFound")]
     ok = False
@@ -193,6 +229,36 @@ def r13e(P, R):
                 "imports.iter()): non-adjacent import lines for one file stay separate and the later one is dropped as `visited`", loc=f.loc())
         ok = has_field(a, "nitrogql_ast::value::StringValue", "value")
         R.check("R13-e", "merge-by-path", ok, "entries are matched by import path", "entries are not matched by path", loc=f.loc())
+        # ... compared as written, or through a transformation that cannot identify two different files
+        BENIGN = ("deref", "as_str", "as_ref", "borrow", "eq", "ne", "clone", "to_owned", "to_string", "as_bytes", "iter", "position", "find", "any",
+                  "rposition", "into_iter", "next", "Some", "len", "new", "with_capacity", "push")
+        LOSSY_KEY = ("trim_start_matches", "trim_end_matches", "trim_matches", "trim_left_matches", "trim_right_matches", "to_lowercase",
+                     "to_uppercase", "to_ascii_lowercase", "to_ascii_uppercase", "replace", "replacen", "file_name", "file_stem", "split",
+                     "rsplit", "split_once", "rsplit_once", "trim", "trim_start", "trim_end", "get", "chars")
+        calls = set()
+        todo, seen = [c["args"][0]], set()
+        while todo:
+            e = todo.pop()
+            for y in subnodes(e):
+                if y.get("k") in ("Call", "MethodCall"):
+                    cn = call_name(y) or ""
+                    calls.add(cn)
+                    if cn in P.fns and cn not in seen and not P.fns[cn].derived:
+                        seen.add(cn)
+                        todo.append(P.fns[cn].body)
+                if y.get("k") == "Path" and "local" in y and y["local"] not in seen:
+                    seen.add(y["local"])
+                    todo.extend(src for src, _ in pv.src.get(y["local"], []) if src is not None)
+        lossy = sorted(short(cn) for cn in calls if cn.split("::")[-1] in LOSSY_KEY and ("str" in cn or "Path" in cn or "String" in cn))
+        other = sorted(short(cn) for cn in calls if cn.split("::")[-1] not in BENIGN and cn.split("::")[-1] not in LOSSY_KEY and cn not in P.fns
+                       and not cn.endswith(("Vec<T, A>::remove", "PartialEq::eq")))
+        if lossy:
+            R.violated("R13-e", "merge-key-injective", "import lines are merged under a key computed with %s: two different paths (e.g. `./f` and "
+                       "`../f`) can get the same key, and the names of one line are then looked up in the other line's file" % lossy, loc=f.loc())
+        elif other:
+            R.undecided("R13-e", "merge-key-injective", "import lines are merged under a transformed path (%s); injectivity not decided" % other, loc=f.loc())
+        else:
+            R.holds("R13-e", "merge-key-injective", "import lines are merged by the literal path string")
     # exclusivity table
     rows = {}
     for m in f.walk():
